@@ -7,10 +7,25 @@ EXTENDS FuelVM, TraceIO
 VARIABLES l, vm, refs      \* refs: run id -> [vis: <<contract, pc - is>> per executed step, fin: index of its Final event]
 trVars == <<l, vm, refs>>
 NoVm == [regs |-> <<>>, mem |-> <<>>, slen |-> 0, env |-> <<>>, frames |-> <<>>, glimit |-> "0", txlen |-> 0, done |-> FALSE,
-         code |-> <<>>, cbal |-> <<>>, inputs |-> {}, nrc |-> 0, opv |-> <<>>, outs |-> <<>>,
+         code |-> <<>>, cbal |-> <<>>, inputs |-> {}, nrc |-> 0, opv |-> <<>>, blobs |-> <<>>, outs |-> <<>>,
          led |-> [mint |-> <<>>, burn |-> <<>>, msg |-> "0"], bal0 |-> <<>>, fee |-> <<>>, outs0 |-> <<>>, cbal0 |-> <<>>, fin |-> <<>>]
 TrInit == l = 1 /\ vm = NoVm /\ refs = <<>>
 e == Rec[l]
+
+\* ---- vmcontract (C30, C36): obligations on the storage access log `acc` that harness/src/vmcontract.rs attaches to
+\* every Step, and environment updates of contract balances by instructions without an exact action (`bal_set`) ----
+ContractTables == {"code", "state", "assets"}
+\* every storage access of the step that concerns a contract concerns one of the transaction's input contracts
+AccOk(v) == IF Has(e, "acc")
+            THEN \A i \in 1..Len(e.acc) :
+                    ((e.acc[i].table \in ContractTables /\ Has(e.acc[i], "contract")) => (e.acc[i].contract \in v.inputs))
+            ELSE TRUE
+\* the contract whose context is active (the id stored at $fp) is an input contract
+CtxOk(v) == IF Has(e, "acc") /\ R(v, FP) # "0" THEN ReadBytes(v.mem, BN!ToNat(R(v, FP)), 32) \in v.inputs ELSE TRUE
+C30Step(v) == AccOk(v) /\ CtxOk(v)
+MergeBal(cb, upd) == [c \in (DOMAIN cb) \cup (DOMAIN upd) |->
+                        IF c \in DOMAIN upd THEN (upd[c] @@ (IF c \in DOMAIN cb THEN cb[c] ELSE <<>>)) ELSE cb[c]]
+HavocVm(v) == IF Has(e, "bal_set") THEN [v EXCEPT !.cbal = MergeBal(v.cbal, e.bal_set)] ELSE v
 
 Strip(r) == [f \in DOMAIN r \ {"enc"} |-> r[f]]
 \* the first n receipts of the step are exactly the instruction's receipts
@@ -27,7 +42,7 @@ LedgerAfter(led, rcs, i) ==
                      ELSE IF r.kind = "MessageOut" THEN [led EXCEPT !.msg = BN!Add(@, r.amount)]
                      ELSE led, rcs, i + 1)
 \* state after a completed instruction
-NextVm(v, eff, oregs, omem) == [(IF eff.x THEN OkVm(v, eff) ELSE v) EXCEPT !.regs = oregs, !.mem = omem, !.slen = e.slen, !.nrc = v.nrc + Len(e.rc),
+NextVm(v, eff, oregs, omem) == [(IF eff.x THEN OkVm(v, eff) ELSE HavocVm(v)) EXCEPT !.regs = oregs, !.mem = omem, !.slen = e.slen, !.nrc = v.nrc + Len(e.rc),
                                                                        !.led = LedgerAfter(v.led, e.rc, 1)]
 
 \* registers after the harness's presets (an environment action), then after the step
@@ -47,12 +62,13 @@ TInit ==
               code |-> IF Has(e, "contracts") THEN [c \in DOMAIN e.contracts |-> e.contracts[c].code] ELSE <<>>,
               cbal |-> IF Has(e, "contracts") THEN [c \in DOMAIN e.contracts |-> e.contracts[c].bal] ELSE <<>>,
               inputs |-> IF Has(e, "inputs") THEN {e.inputs[i] : i \in 1..Len(e.inputs)} ELSE {},
-              nrc |-> 0, opv |-> <<>>, outs |-> IF Has(e, "outs") THEN e.outs ELSE <<>>,
+              nrc |-> 0, opv |-> <<>>, blobs |-> IF Has(e, "blobs") THEN e.blobs ELSE <<>>, outs |-> IF Has(e, "outs") THEN e.outs ELSE <<>>,
               led |-> [mint |-> <<>>, burn |-> <<>>, msg |-> "0"],
               bal0 |-> IF Has(e, "bal0") THEN e.bal0 ELSE <<>>, fee |-> IF Has(e, "fee") THEN e.fee ELSE <<>>,
               outs0 |-> IF Has(e, "outs") THEN e.outs ELSE <<>>,
               cbal0 |-> IF Has(e, "contracts") THEN [c \in DOMAIN e.contracts |-> e.contracts[c].bal] ELSE <<>>, fin |-> <<>>]
     /\ e.regs[HP + 1] = BN!FromNat(e.hp)
+    /\ AccOk([inputs |-> IF Has(e, "inputs") THEN {e.inputs[i] : i \in 1..Len(e.inputs)} ELSE {}])
 \* the harness writes operand bytes into accessible memory (an environment action, like Poke)
 TMemPoke ==
     /\ IsEv(l, "MemPoke")
@@ -96,6 +112,7 @@ TStepExec ==
            omem  == ObservedMem(v)
        IN /\ GasMonotone(v.regs, oregs)
           /\ ConstRegsKept(oregs)
+          /\ C30Step(v)
           /\ \E eff \in Effs(v, e.word) :
                 /\ (eff.x => ExactExec(v, eff, oregs, omem))
                 /\ vm' = IF e.out = "panic" THEN [v EXCEPT !.regs = oregs, !.mem = omem, !.slen = e.slen] ELSE NextVm(v, eff, oregs, omem)
@@ -148,6 +165,7 @@ TStepRun ==
            fp    == FetchPanics(v)
        IN /\ GasMonotone(v.regs, oregs)
           /\ ConstRegsKept(oregs)
+          /\ C30Step(v)
           /\ (fp = {} => e.word = Fetched(v))
           /\ \E eff \in (IF fp = {} THEN Effs(v, e.word) ELSE {Unmodelled}) :
              IF ~Has(e, "fin")
@@ -308,7 +326,21 @@ TBpRun ==
        IN e.breaks = SelectSeq(vis, LAMBDA x : x \in bps)
     /\ UNCHANGED <<vm, refs>>
 
-TrNext == \/ ((TInit \/ TMemPoke \/ TPoke \/ TStepExec \/ TClientTx \/ TRunSummary) /\ UNCHANGED refs /\ l' = l + 1)
+\* predicate verification / estimation of one transaction over a recording predicate storage (C30): no access to a
+\* contract table at all; and a predicate that reaches an instruction which is not allowed in predicates after a prologue
+\* of MOVI / NOOP instructions (which cannot fail with the ample gas the driver gives) is refused with
+\* ContractInstructionNotAllowed
+PredWord(i) == Slice(e.code, 4 * (i - 1), 4)
+PredHarmless(w) == ValidWord(w) /\ (Mnemonic(w) = "NOOP" \/ (Mnemonic(w) = "MOVI" /\ Writable(RA(w))))
+PredRefused == \E i \in 1..(BLen(e.code) \div 4) :
+                  /\ PredicateForbidden(PredWord(i))
+                  /\ \A j \in 1..(i - 1) : PredHarmless(PredWord(j))
+TPredCheck ==
+    /\ IsEv(l, "PredCheck")
+    /\ \A i \in 1..Len(e.acc) : e.acc[i].table \notin ContractTables
+    /\ (PredRefused => (e.ok = FALSE /\ e.reason = "ContractInstructionNotAllowed"))
+    /\ UNCHANGED vm
+TrNext == \/ ((TPredCheck \/ TInit \/ TMemPoke \/ TPoke \/ TStepExec \/ TClientTx \/ TRunSummary) /\ UNCHANGED refs /\ l' = l + 1)
           \/ ((TSeg \/ TStepRun \/ TFinal \/ TReplica \/ TReplicaReceipts \/ TBpRun) /\ l' = l + 1)
 TrSpec == TrInit /\ [][TrNext]_trVars
 =============================================================================
